@@ -187,6 +187,24 @@ func Main(m *testing.M, prop string) {
 // Assume records an assumption / trusted-base statement for the evidence file.
 func Assume(a ...string) { assumes = append(assumes, a...) }
 
+// Abort flushes the evidence fragment and ends the process. It is used by
+// watchdogs: a goroutine that hangs inside the code under test cannot be stopped
+// in any other way.
+func Abort(code int) {
+	flush(code)
+	os.Exit(code)
+}
+
+// Watchdog reports f for case c and aborts the process if stop is not called
+// within d. d must be generous (hundreds of times the normal duration).
+func (s *Sub) Watchdog(d time.Duration, c interface{}, f *Failure) (stop func()) {
+	t := time.AfterFunc(d, func() {
+		s.Report(c, f)
+		Abort(1)
+	})
+	return func() { t.Stop() }
+}
+
 // NewSub registers a sub-check.
 func NewSub(name, rule string) *Sub {
 	s := &Sub{Name: name, Rule: rule,
